@@ -82,13 +82,18 @@ def run(ctx):
     # ---- inputs with several offenders of one kind (Plan_Multi.tla), enumerated by TLC and forged onto corpus templates
     histcommon.plan_multi(ctx)
     # ---- determinism / history independence / read-only: several processes, merged per object
-    files = []
-    s = None
+    from concurrent.futures import ThreadPoolExecutor
+    vlib.GOENV['VERIF_MULTI_SKIP'] = 'kueku'     # their status stability is judged by Trace_KeyUsage below (12 repetitions each)
     nproc = 2 if ctx.quick else 3
-    for p in range(nproc):
-        d, s1 = histcommon.run_history(ctx, exe, 'repeat', 'proc%d' % p)
-        files.append(os.path.join(d, 'history.ndjson'))
-        s = s or s1
+    nmatter = histcommon.cfg_probe(ctx, exe)
+    jobs = [('repeat', 'proc%d' % p, None) for p in range(nproc)]
+    # the same under changing configurations: one process per first configuration, so that every (object, configuration) is met
+    # with different pasts (a verdict remembered under a key that forgets the configuration shows as a conflict between processes)
+    jobs += [('cfgfirst', 'cfgfirst%d' % p, {'VERIF_FIRSTCFG': str(p), 'VERIF_MULTI': ''}) for p in range(8 if ctx.quick else 16)]
+    with ThreadPoolExecutor(max_workers=6) as ex:
+        res = list(ex.map(lambda j: histcommon.run_history(ctx, exe, j[0], j[1], env2=j[2]), jobs))
+    files = [os.path.join(d, 'history.ndjson') for (d, _) in res]
+    s = res[0][1]
     merged = ctx.path('merged.ndjson')
     merge_by_object(files, merged)
     rej, lines = histcommon.validate(ctx, merged)
